@@ -533,6 +533,9 @@ SET_OF_decode_xer(const asn_codec_ctx_t *opt_codec_ctx,
 	asn_dec_rval_t rval;		/* Return value from a decoder */
 	ssize_t consumed_myself = 0;	/* Consumed bytes from ptr */
 
+	if(ASN__STACK_OVERFLOW_CHECK(opt_codec_ctx))
+		ASN__DECODE_FAILED;
+
 	/*
 	 * Create the target structure if it is not present already.
 	 */
